@@ -102,7 +102,10 @@ fn main() {
 			// process crash: what the files hold now
 			let img = dir.path().join("img");
 			copy_dir(&dir.path().join("db"), &img);
-			let o2 = opts.clone().with_path(img.clone());
+			// fresh Options: a clone would share the block cache between two stores with the same table ids
+			let mut o2 = Options::new().with_path(img.clone());
+			o2.level0_max_files = 64;
+			let o2 = o2.with_l0_stall_threshold(64);
 			match TreeBuilder::with_options(o2).build() {
 				Ok(t4) => {
 					let r = t4.begin_with_mode(Mode::ReadOnly).unwrap();
